@@ -3517,7 +3517,7 @@ func (s *ImmuStore) sync() error {
 		return nil
 	}
 
-	for i := range s.vLogs {
+	for _, i := range s.vLogIDs() {
 		// Scope each vLog flush+sync in its own block so the per-vLog lock
 		// is released as soon as the work completes, instead of being held
 		// (via defer) until sync() returns.
@@ -3653,7 +3653,7 @@ func (s *ImmuStore) Close() error {
 		merr.Append(err)
 	}
 
-	for i := range s.vLogs {
+	for _, i := range s.vLogIDs() {
 		vLog, err := s.fetchVLog(i + 1)
 		merr.Append(err)
 
